@@ -66,7 +66,23 @@ def _ops():
         return sorted(paths)
 
     first_name = lambda root: (root.children[0].name if root.children else "zz")  # noqa: E731
+
+    def inner(root):
+        """a non-root node with children of its own (the first one in document order), else the root: whole-tree
+        operations may be applied to any node, not only to a root"""
+        for n in walk(root):
+            if n is not root and n.children:
+                return n
+        return root
     return {
+        "validate_tree_ff_inner": lambda r: validate.tree(inner(r)),
+        "validate_tree_coll_inner": lambda r: coll(validate.tree, inner(r)),
+        "evaluate_tree_inner": lambda r: coll(evaluate.tree, inner(r)),
+        "mio_to_json_inner": lambda r: metapype_io.to_json(inner(r)),
+        "mio_to_xml_inner": lambda r: metapype_io.to_xml(inner(r)),
+        "export_to_xml_inner": lambda r: export.to_xml(inner(r)),
+        "mio_graph_inner": lambda r: metapype_io.graph(inner(r)),
+        "mpio_to_json_inner": lambda r: mp_io.to_json(inner(r)),
         "validate_node_ff": lambda r: validate.node(pick(r, 1)),
         "validate_node_coll": lambda r: coll(validate.node, pick(r, 1)),
         "validate_tree_ff": lambda r: validate.tree(r),
@@ -188,7 +204,7 @@ def record(kind, seed, plan):
     _COPIES[id(root)] = root.copy()      # registered, but never tracked: excluded from the projection
     _CANDS.clear()
     _CANDS[id(root)] = Node(root.children[0].name if root.children else "zz")
-    tr = {"init": w.pi(ALLF), "events": [], "desc": {"tree": kind, "seed": seed, "nodes": len(w.nodes)}}
+    tr = {"init": w.pi(ALLF + ("plink",)), "events": [], "desc": {"tree": kind, "seed": seed, "nodes": len(w.nodes)}}
     names = sorted(ops)
     for name in names + list(plan):
         reg_before = len(Node.store)
@@ -196,7 +212,7 @@ def record(kind, seed, plan):
             res = render(w, ops[name](root))
         except Exception as e:  # noqa: BLE001 - an exception is a result too (C04/C19 judge whether it may escape)
             res = "raised:" + type(e).__name__
-        tr["events"].append({"op": "readonly", "fn": name, "args": [], "ok": True, "ret": 0, "res": w.atoms.atom(res), "post": w.pi(ALLF),
+        tr["events"].append({"op": "readonly", "fn": name, "args": [], "ok": True, "ret": 0, "res": w.atoms.atom(res), "post": w.pi(ALLF + ("plink",)),
                              "regdelta": len(Node.store) - reg_before})
     return tr
 
